@@ -16,6 +16,10 @@ use crate::rng::Rng;
 
 const MAGIC: &[u8] = b"VibratoTokenizer 0.5\n";
 
+fn mark(what: &str) {
+    crate::progress::note(what);
+}
+
 fn read_outcome(bytes: &[u8]) -> u8 {
     // 0 = Err, 1 = Ok, 2 = panic
     match catch_unwind(AssertUnwindSafe(|| Dictionary::read(bytes).is_ok())) {
@@ -81,6 +85,7 @@ pub fn truncate(a: &HashMap<String, String>) -> i32 {
         let (_d, bytes, info) = gen_image(&mut rng, kind);
         let len = bytes.len();
         // the complete image loads whatever the granularity of the reader
+        mark(&format!("image={} len={} complete image, readers slice/3/7/4096", i, len));
         let full_ok = read_outcome(&bytes) == 1 && [3usize, 7, 4096].iter().all(|&c| read_outcome_chunked(&bytes, c) == 1);
         writeln!(f, "{}", json!({"ev": "image", "info": info, "len": len, "full_ok": full_ok})).unwrap();
         // offsets to try
@@ -104,9 +109,11 @@ pub fn truncate(a: &HashMap<String, String>) -> i32 {
                                       "first_bad": fb.map(|x| x as i64).unwrap_or(-1), "len": len})).unwrap();
         };
         for (j, &k) in offs.iter().enumerate() {
+            mark(&format!("image={} len={} prefix={} reader=slice", i, len, k));
             let mut o = read_outcome(&bytes[..k]);
             if o == 0 && j % 41 == 0 {
                 // the same prefix through a reader that delivers short reads
+                mark(&format!("image={} len={} prefix={} reader=chunks-of-{}", i, len, k, 5 + j % 7));
                 o = read_outcome_chunked(&bytes[..k], 5 + j % 7);
             }
             cnt[o as usize] += 1;
@@ -141,7 +148,8 @@ pub fn truncate(a: &HashMap<String, String>) -> i32 {
         lower[0] = b'v';
         variants.push(lower);
         let mut vc = [0usize; 3];
-        for v in &variants {
+        for (vi, v) in variants.iter().enumerate() {
+            mark(&format!("image={} len={} header-variant={}", i, len, vi));
             vc[read_outcome(v) as usize] += 1;
         }
         let mut scratch = bytes.clone();
@@ -149,6 +157,7 @@ pub fn truncate(a: &HashMap<String, String>) -> i32 {
         for (k, b) in &head_variants {
             let old = scratch[*k];
             scratch[*k] = *b;
+            mark(&format!("image={} len={} magic-byte={} value={}", i, len, k, b));
             let o = read_outcome(&scratch);
             if o != 0 && first_accepted < 0 {
                 first_accepted = (*k as i64) * 256 + *b as i64;
